@@ -3948,3 +3948,120 @@ func E9PendingNotOverwritten(c *core.Ctx, r *core.Report) {
 	r.Count("E9.pending-assignments", n)
 	r.Floor("E9.pending-assignments", 4)
 }
+
+// E9MovedNodeHeight: the node that takes a removed node's place in the sweep status gets its height recomputed.
+func E9MovedNodeHeight(c *core.Ctx, r *core.Report) {
+	r.Rule("E9.moved-node-height", "the sweep status is an AVL tree. SweepStatus.Remove, for a node with two children, moves the in-order successor into the removed node's place (it receives the removed node's parent, left and right links) — but not its height. rebalance() climbs only while heights change, so the moved node's stale height is repaired only because Remove itself walks from the successor's old parent up to the root, calling rebalance on every ancestor (`for ; a != nil; a = a.parent`), or by an explicit update of the moved node's height. Replacing the walk by a single rebalance leaves a wrong height behind, and a later insertion or removal panics with \"Tree too far out of shape!\" — for every boolean operation, once about five segments cross the sweep line")
+	p := c.MustPkg("")
+	info := p.TypesInfo
+	fd := core.MustFuncDecl(p, "SweepStatus.Remove")
+	n := paramObj(info, fd, 0)
+	var moved types.Object
+	var movedAt token.Pos
+	ast.Inspect(fd.Body, func(m ast.Node) bool {
+		as, ok := m.(*ast.AssignStmt)
+		if !ok || len(as.Lhs) < 3 || len(as.Lhs) != len(as.Rhs) {
+			return true
+		}
+		var lroot types.Object
+		okAll := true
+		for i := range as.Lhs {
+			ls, ok1 := core.Unparen(as.Lhs[i]).(*ast.SelectorExpr)
+			rs, ok2 := core.Unparen(as.Rhs[i]).(*ast.SelectorExpr)
+			if !ok1 || !ok2 || ls.Sel.Name != rs.Sel.Name {
+				okAll = false
+				break
+			}
+			lid, ok1 := core.Unparen(ls.X).(*ast.Ident)
+			rid, ok2 := core.Unparen(rs.X).(*ast.Ident)
+			if !ok1 || !ok2 || core.ObjOf(info, rid) != n {
+				okAll = false
+				break
+			}
+			if lroot == nil {
+				lroot = core.ObjOf(info, lid)
+			} else if lroot != core.ObjOf(info, lid) {
+				okAll = false
+			}
+		}
+		if okAll && lroot != nil {
+			moved, movedAt = lroot, as.Pos()
+		}
+		return true
+	})
+	key := "canvas.SweepStatus.Remove|height of the node moved into the removed node's place"
+	r.Count("E9.moved-node-height", 1)
+	if moved == nil {
+		r.Fail("E9.moved-node-height", key, c.Pos(fd.Pos()), "the statement that gives the successor the removed node's links was not found")
+		return
+	}
+	explicit, climb := false, false
+	ast.Inspect(fd.Body, func(m ast.Node) bool {
+		if m == nil || m.Pos() < movedAt {
+			return true
+		}
+		switch x := m.(type) {
+		case *ast.CallExpr:
+			if se, ok := x.Fun.(*ast.SelectorExpr); ok && strings.Contains(strings.ToLower(se.Sel.Name), "height") {
+				if id, ok := core.Unparen(se.X).(*ast.Ident); ok && core.ObjOf(info, id) == moved {
+					explicit = true
+				}
+			}
+		case *ast.AssignStmt:
+			for _, l := range x.Lhs {
+				if se, ok := core.Unparen(l).(*ast.SelectorExpr); ok && strings.Contains(strings.ToLower(se.Sel.Name), "height") {
+					if id, ok := core.Unparen(se.X).(*ast.Ident); ok && core.ObjOf(info, id) == moved {
+						explicit = true
+					}
+				}
+			}
+		case *ast.ForStmt:
+			// for ; a != nil; a = a.parent { …rebalance(a)… }
+			be, ok := core.Unparen(x.Cond).(*ast.BinaryExpr)
+			if !ok || be.Op != token.NEQ {
+				return true
+			}
+			var a types.Object
+			for _, side := range [][2]ast.Expr{{be.X, be.Y}, {be.Y, be.X}} {
+				if id, ok := core.Unparen(side[0]).(*ast.Ident); ok {
+					if nl, ok := core.Unparen(side[1]).(*ast.Ident); ok && nl.Name == "nil" {
+						a = core.ObjOf(info, id)
+					}
+				}
+			}
+			post, ok := x.Post.(*ast.AssignStmt)
+			if a == nil || !ok || len(post.Lhs) != 1 || len(post.Rhs) != 1 {
+				return true
+			}
+			lid, ok1 := post.Lhs[0].(*ast.Ident)
+			rs, ok2 := core.Unparen(post.Rhs[0]).(*ast.SelectorExpr)
+			if !ok1 || !ok2 || core.ObjOf(info, lid) != a {
+				return true
+			}
+			if rid, ok := core.Unparen(rs.X).(*ast.Ident); !ok || core.ObjOf(info, rid) != a {
+				return true
+			}
+			// the body calls rebalance(a) as a direct statement
+			for _, st := range x.Body.List {
+				if es, ok := st.(*ast.ExprStmt); ok {
+					if call, ok := es.X.(*ast.CallExpr); ok && len(call.Args) == 1 {
+						if f := core.CalleeOf(info, call); f != nil && f.Name() == "rebalance" {
+							if id, ok := core.Unparen(call.Args[0]).(*ast.Ident); ok && core.ObjOf(info, id) == a {
+								climb = true
+							}
+						}
+					}
+				}
+			}
+		}
+		return true
+	})
+	switch {
+	case explicit:
+		r.OK("E9.moved-node-height", key, c.Pos(movedAt), "the moved node's height is updated explicitly")
+	case climb:
+		r.OK("E9.moved-node-height", key, c.Pos(movedAt), "every ancestor up to the root is rebalanced")
+	default:
+		r.Fail("E9.moved-node-height", key, c.Pos(movedAt), fmt.Sprintf("`%s` takes the removed node's place but keeps its old height: neither is its height updated, nor does Remove walk every ancestor up to the root (rebalance stops climbing where a height is unchanged, below the moved node); a later insertion or removal panics with \"Tree too far out of shape!\"", moved.Name()))
+	}
+}
